@@ -5,6 +5,7 @@
   to the real package by the correspondence run of `bin/check C14`).
 -/
 import Influx.Lemmas.TSIFinal
+import Influx.Lemmas.TSILog
 
 namespace Influx.Props.C14
 open Influx.Model.TSI Influx.Spec.C14
@@ -121,6 +122,15 @@ theorem C14_log_is_replay {st : State} {live : List Nat} (h : GInv st live) :
   intro p hp f hf hl
   obtain ⟨i, hpi⟩ := pinv_of_mem h hp
   exact hpi.loginv f hf hl
+
+/-- **log truncated at any byte**: for any entry codec in which a complete entry decodes and a
+    strict prefix of an entry never does (short buffer / checksum mismatch — the hypothesis
+    `LogCodec.torn`), `LogFile.open`'s loop over a log cut anywhere inside entry `e` reads back
+    exactly the whole entries before the cut. -/
+theorem C14_truncated_log (c : LogCodec) (es : List Entry) (e : Entry) (p : List Nat)
+    (hp : p.length < (c.encode e).length) (hpre : p = (c.encode e).take p.length) :
+    parseLog c ((es.flatMap c.encode ++ p).length + 1) (es.flatMap c.encode ++ p) = es :=
+  parseLog_truncated c es e p hp hpre _ (Nat.lt_succ_self _)
 
 -- non-vacuity: a history with every kind of allowed operation
 def exampleOps : List Op :=
